@@ -116,6 +116,12 @@ pub trait IVP {
     /// where `dim` is the length of `y`. The user can fill the matrix via Index/IndexMut,
     /// e.g., `m[(row, col)] = value`.
     fn mass(&self, m: &mut Matrix) {
-        Matrix::identity(m.nrows());
+        // Identity storage already is the identity; any writable storage is filled in.
+        if !matches!(m.storage, MatrixStorage::Identity) {
+            m.fill(0.0);
+            for i in 0..m.nrows() {
+                m[(i, i)] = 1.0;
+            }
+        }
     }
 }
